@@ -622,4 +622,124 @@ theorem noRepl_call_not_full (v : Gen.Variant) (bytes : List Nat) (slack : Nat) 
   exact reachable_raw_sufficient .utf8NoRepl v (famOfVariant v).init Reach.init (noReplInput v bytes) true budget
     (noReplSpare v bytes c slack) Q hb' hQ hle (hadm c hc)
 
+/-! ### executable admissibility checkers (for the non-vacuity examples) -/
+
+def admissibleB (F : Fam) (k : Sink) (cap : Nat) (r : CallRes F.σ) : Bool :=
+  decide (unitsOfList k r.out ≤ cap) &&
+  (match r.res with
+   | .outputFull => decide (cap < unitsOfList k r.out + r.stopNeed)
+   | .malformed _ _ => decide (unitsOfList k r.out + replRoom k ≤ cap)
+   | .inputEmpty => true)
+
+theorem admissibleB_iff (F : Fam) (k : Sink) (cap : Nat) (r : CallRes F.σ) :
+    admissibleB F k cap r = true ↔ Admissible F k cap r := by
+  unfold admissibleB Admissible
+  cases hres : r.res with
+  | inputEmpty => simp
+  | outputFull => simp
+  | malformed l a => simp
+
+def replAdmissibleB (F : Fam) (k : Sink) (last : Bool) : Nat → F.σ → List Nat → List Budget → Nat → Bool
+  | 0, _, _, _, _ => true
+  | fuel + 1, s, src, budgets, cap =>
+    admissibleB F k cap (call F k s src last (budgets.headD .unlimited)) &&
+    (match (call F k s src last (budgets.headD .unlimited)).res with
+     | .malformed _ _ =>
+       replAdmissibleB F k last fuel (call F k s src last (budgets.headD .unlimited)).st
+         (src.drop (call F k s src last (budgets.headD .unlimited)).read) budgets.tail
+         (cap - unitsOfList k (call F k s src last (budgets.headD .unlimited)).out - replRoom k)
+     | _ => true)
+
+theorem replAdmissibleB_sound (F : Fam) (k : Sink) (last : Bool) :
+    ∀ (fuel : Nat) (s : F.σ) (src : List Nat) (budgets : List Budget) (cap : Nat),
+      replAdmissibleB F k last fuel s src budgets cap = true → ReplAdmissible F k last fuel s src budgets cap := by
+  intro fuel
+  induction fuel with
+  | zero => intro s src budgets cap _; trivial
+  | succ fuel ih =>
+    intro s src budgets cap h
+    simp only [replAdmissibleB, Bool.and_eq_true] at h
+    simp only [ReplAdmissible]
+    refine ⟨(admissibleB_iff F k cap _).mp h.1, ?_⟩
+    intro l a hres
+    have h2 := h.2
+    rw [hres] at h2
+    exact ih _ _ _ _ h2
+
+def growAdmissibleB (v : Gen.Variant) (ifuel : Nat) :
+    Nat → (famOfVariant v).σ → List Nat → Nat → List Nat → List (List Budget) → Bool
+  | 0, _, _, _, _, _ => true
+  | fuel + 1, s, src, spare, slack, bs =>
+    replAdmissibleB (famOfVariant v) .utf8 true ifuel s src (bs.headD []) spare &&
+    (match replLoop (famOfVariant v) .utf8 true ifuel s src (bs.headD []) with
+     | none => true
+     | some t =>
+       match t.res with
+       | .outputFull =>
+         match variantMax .utf8 v t.st (src.length - t.read) with
+         | none => true
+         | some needed =>
+           growAdmissibleB v ifuel fuel t.st (src.drop t.read)
+             (max (spare - unitsOfList .utf8 t.out) needed + slack.headD 0) slack.tail bs.tail
+       | _ => true)
+
+theorem growAdmissibleB_sound (v : Gen.Variant) (ifuel : Nat) :
+    ∀ (fuel : Nat) (s : (famOfVariant v).σ) (src : List Nat) (spare : Nat) (slack : List Nat) (bs : List (List Budget)),
+      growAdmissibleB v ifuel fuel s src spare slack bs = true → GrowAdmissible v ifuel fuel s src spare slack bs := by
+  intro fuel
+  induction fuel with
+  | zero => intro s src spare slack bs _; trivial
+  | succ fuel ih =>
+    intro s src spare slack bs h
+    simp only [growAdmissibleB, Bool.and_eq_true] at h
+    simp only [GrowAdmissible]
+    refine ⟨replAdmissibleB_sound _ _ _ _ _ _ _ _ h.1, ?_⟩
+    intro t needed ht hres hq
+    have h2 := h.2
+    rw [ht] at h2
+    simp only [hres, hq] at h2
+    exact ih _ _ _ _ _ h2
+
+def decodeAdmissibleB (v : Gen.Variant) (bytes : List Nat) (fuel : Nat) (slack : List Nat) (bs : List (List Budget)) : Bool :=
+  if isPotentiallyBorrowable v then
+    match firstCapacity v (OneShot.validUpTo v bytes) (bytes.length - OneShot.validUpTo v bytes) with
+    | none => true
+    | some c =>
+      growAdmissibleB v fuel fuel (famOfVariant v).init (bytes.drop (OneShot.validUpTo v bytes))
+        (c + slack.headD 0 - OneShot.validUpTo v bytes) slack.tail bs
+  else
+    match firstCapacityNB v bytes.length with
+    | none => true
+    | some c => growAdmissibleB v fuel fuel (famOfVariant v).init bytes (c + slack.headD 0) slack.tail bs
+
+theorem decodeAdmissibleB_sound (v : Gen.Variant) (bytes : List Nat) (fuel : Nat) (slack : List Nat)
+    (bs : List (List Budget)) (h : decodeAdmissibleB v bytes fuel slack bs = true) :
+    DecodeAdmissible v bytes fuel slack bs := by
+  unfold decodeAdmissibleB at h
+  unfold DecodeAdmissible
+  split
+  · rename_i hb
+    simp only [hb, if_true] at h
+    intro c hc
+    rw [hc] at h
+    exact growAdmissibleB_sound _ _ _ _ _ _ _ _ h
+  · rename_i hb
+    simp only [hb] at h
+    intro c hc
+    rw [hc] at h
+    exact growAdmissibleB_sound _ _ _ _ _ _ _ _ h
+
+def noReplAdmissibleB (v : Gen.Variant) (bytes : List Nat) (slack : Nat) (budget : Budget) : Bool :=
+  match noReplCapacity v bytes with
+  | none => true
+  | some c => admissibleB (famOfVariant v) .utf8 (noReplSpare v bytes c slack)
+      (call (famOfVariant v) .utf8 (famOfVariant v).init (noReplInput v bytes) true budget)
+
+theorem noReplAdmissibleB_iff (v : Gen.Variant) (bytes : List Nat) (slack : Nat) (budget : Budget) :
+    noReplAdmissibleB v bytes slack budget = true ↔ NoReplAdmissible v bytes slack budget := by
+  unfold noReplAdmissibleB NoReplAdmissible
+  cases hc : noReplCapacity v bytes with
+  | none => simp
+  | some c => simp [admissibleB_iff]
+
 end EncodingRs.Lemmas.OneShotCap
